@@ -5,6 +5,61 @@ open Drx Drx.Drv Drx.Lscr
 
 def textJ (r : R Str) : J := match r with | .ok t => J.str t | .error _ => J.s "error"
 
+def nameJ : Name → J
+  | .s v => J.str v
+  | .i v => J.int v
+
+def leafName : Leaf → String
+  | .node => "Node" | .localVar => "LocalVariable" | .globalVar => "GlobalVariable" | .propName => "PropertyName"
+  | .definedProp => "DefinedPropertyName" | .paramName => "ParameterName" | .dateTime => "DateTimeFunction" | .menu => "Menu"
+  | .menuItem => "MenuItem" | .soundChan => "SoundChannel" | .sprite => "Sprite" | .sysObj => "SystemObject" | .cast => "Cast"
+  | .const => "ConstantValue" | .exitRepeat => "ExitRepeat"
+
+/-- deep snapshot of a node: class, name, position and the class's fields (same shape as harness/c12.py `snap_node`) -/
+partial def nodeJ : Node → J
+  | .none => J.null
+  | .leaf c n p => J.arr [J.s (leafName c), nameJ n, J.int p]
+  -- use_hash is reported modulo the benign write of Symbol.generate_lingo (objects shared through the peek opcode make
+  -- Python's flag flip on copies the model keeps separate; the flag is never read for such names)
+  | .sym n p uh => J.arr [J.s "Symbol", nameJ n, J.int p, J.bool (uh && !nameInList Gen.PropTables.knownSymbolsConstant n)]
+  | .unary op p x => J.arr [J.s "UnaryOperation", J.str op, J.int p, nodeJ x]
+  | .binary op p l r => J.arr [J.s "BinaryOperation", J.str op, J.int p, nodeJ l, nodeJ r]
+  | .spAssign p l r m => J.arr [J.s "SpAssignOperation", J.s "assign", J.int p, nodeJ l, nodeJ r, J.str m]
+  | .strOp k p a b c => J.arr [J.s "StringOperation", J.str k, J.int p, nodeJ a, nodeJ b, nodeJ c]
+  | .unaryStr op p t x => J.arr [J.s "UnaryStringOperation", J.str op, J.int p, (match t with | some t => J.str t | none => J.null), nodeJ x]
+  | .propAcc p o pr => J.arr [J.s "PropertyAccessorOperation", J.s "accessor", J.int p, nodeJ o, J.str pr]
+  | .keyAcc p pr => J.arr [J.s "KeyPropertyAccessorOperation", J.s "accessor", J.int p, J.str pr]
+  | .menuItemAcc p m i => J.arr [J.s "MenuitemAccessorOperation", J.s "menu_item", J.int p, nodeJ m, nodeJ i]
+  | .menuItemsAcc p m => J.arr [J.s "MenuitemsAccessorOperation", J.s "menu_items", J.int p, nodeJ m]
+  | .loadList n p ops => J.arr [J.s "LoadListOperation", J.str n, J.int p, J.arr (ops.map nodeJ)]
+  | .toList p x => J.arr [J.s "ToListOperation", J.s "to_list", J.int p, nodeJ x]
+  | .toDict p x => J.arr [J.s "ToDictionaryOperation", J.s "to_dict", J.int p, nodeJ x]
+  | .stmt p c => J.arr [J.s "Statement", J.s "statement", J.int p, nodeJ c]
+  | .callFn n p ps up it wr => J.arr [J.s "CallFunction", nameJ n, J.int p, nodeJ ps, J.bool up, J.bool it, J.bool wr]
+  | .callMethod n p o ps => J.arr [J.s "CallMethod", nameJ n, J.int p, nodeJ o, nodeJ ps]
+  | .repeat_ p e c l t st v sg => J.arr [J.s "RepeatOperation", J.s "repeat", J.int p, J.int e, nodeJ c, J.arr (l.map nodeJ), J.str t, nodeJ st, nameJ v, J.str sg]
+  | .ifThen p c a b => J.arr [J.s "IfThenOperation", J.s "if-then", J.int p, nodeJ c, J.arr (a.map nodeJ), J.arr (b.map nodeJ)]
+  | .jump p a => J.arr [J.s "JumpOperation", J.s "jump", J.int p, J.int a]
+  | .jz p c a => J.arr [J.s "JzOperation", J.s "jz", J.int p, nodeJ c, J.int a]
+  | .tell p o l => J.arr [J.s "WindowTellOperation", J.s "tell", J.int p, nodeJ o, J.arr (l.map nodeJ)]
+
+def funcJ (f : FuncDef) : J :=
+  J.obj [("name", J.str f.name), ("pos", J.int f.pos), ("params", J.arr (f.params.map nodeJ)), ("locals", J.arr (f.localVars.map nodeJ)),
+         ("globals", J.arr (f.globalVars.map nodeJ)), ("stmts", J.arr (f.stmts.map nodeJ)), ("is_method", J.bool f.isMethod)]
+
+def scriptJ (s : Script) : J :=
+  J.obj [("properties", J.arr (s.properties.map J.str)), ("global_vars", J.arr (s.globalVars.map J.str)),
+         ("functions", J.arr (s.functions.map funcJ)), ("scr_num", J.int s.scrNum), ("cont_scr_num", J.int s.contScrNum),
+         ("factory_name", J.str s.factoryName)]
+
+def insertReg (x : Nat × Nat × Nat) : List (Nat × Nat × Nat) → List (Nat × Nat × Nat)
+  | [] => [x]
+  | y :: ys => if x.1 < y.1 then x :: y :: ys else y :: insertReg x ys
+
+/-- registers that are not (0, 0), sorted by opcode -/
+def regsJ (r : Regs) : J :=
+  J.arr (((r.filter fun e => e.2 ≠ (0, 0)).foldr insertReg []).map fun e => J.arr [J.nat e.1, J.nat e.2.1, J.nat e.2.2])
+
 /-- state of one simulated Python process: operand registers of the opcode singletons, current tree -/
 structure Proc where
   regs : Regs := []
@@ -57,6 +112,15 @@ def run : List String → Option String
       let (pr, o) := histStep ps.toArray acc.1 op
       (pr, acc.2 ++ [o])) ({}, [])
     some (J.arr outs).render
+  | "snap" :: prog :: hexes => do
+    let bs ← hexes.mapM bytesOfHex
+    let ps ← pairUp bs
+    let ops := prog.splitOn ","
+    let (pr, outs) := ops.foldl (fun (acc : Proc × List J) op =>
+      let (pr, o) := histStep ps.toArray acc.1 op
+      (pr, acc.2 ++ [o])) ({}, [])
+    let anyErr := outs.any fun o => match o with | .str s => s == "error".toList | _ => false
+    some (J.obj [("regs", regsJ pr.regs), ("tree", if anyErr then J.null else match pr.tree with | some t => scriptJ t | none => J.null)]).render
   | _ => none
 
 end Drx.Drv.Lscr
